@@ -355,3 +355,98 @@ func VH_C04_registration_live() {
 	}
 	vrtReach("asker-dead")
 }
+
+// vhPipeCount counts the PipeResults it is told.
+type vhPipeCount struct {
+	mu sync.Mutex
+	n  int
+	ok int
+}
+
+func (a *vhPipeCount) OnReceive(ctx vivid.ActorContext) {
+	if pr, isPipe := ctx.Message().(*vivid.PipeResult); isPipe {
+		a.mu.Lock()
+		a.n++
+		if pr.Error == nil && pr.Message != nil {
+			a.ok++
+		}
+		a.mu.Unlock()
+	}
+}
+
+// VH_C04_pipe_live: a future is piped to a forwarder (first PipeTo on it) while
+// the reply that completes it arrives on the replier's goroutine. Whatever the
+// interleaving, the forwarder is told the final result exactly once.
+func VH_C04_pipe_live() {
+	sys := vhLiveSystem()
+	rref, err := sys.ActorOf(vhReplyFirst{}, vivid.WithActorName("r"))
+	vrtAssert(err == nil, "setup-spawn")
+	fw := &vhPipeCount{}
+	fref, err := sys.ActorOf(fw, vivid.WithActorName("fw"))
+	vrtAssert(err == nil, "setup-spawn")
+	vrtYield()
+	f := sys.Ask(rref, &vhUserMsg{N: 1}, time.Hour) // the reply is produced by r's consumer goroutine
+	var perr error
+	var wg sync.WaitGroup
+	wg.Add(1)
+	go func() {
+		perr = f.PipeTo(vivid.ActorRefs{fref})
+		wg.Done()
+	}()
+	wg.Wait()
+	vrtYield()
+	m, rerr := f.Result()
+	vrtRaceOff()
+	u, ok := m.(*vhUserMsg)
+	vrtAssert(rerr == nil && ok && u.N == 100, "answered-ask-has-its-reply")
+	vrtAssert(perr == nil, "pipeto-accepted")
+	vrtAssert(fw.n == 1, "forwarder-told-exactly-once")
+	vrtAssert(fw.ok == 1, "forwarder-gets-the-final-result")
+	vrtReach("piped")
+}
+
+// vhSpawnOnKill spawns a child from its own OnKill handler (while it is stopping).
+type vhSpawnOnKill struct {
+	child *vhTrace
+}
+
+func (a *vhSpawnOnKill) OnReceive(ctx vivid.ActorContext) {
+	if _, ok := ctx.Message().(*vivid.OnKill); ok && a.child != nil {
+		_, _ = ctx.ActorOf(a.child, vivid.WithActorName("late"))
+	}
+}
+
+// vhTrace records every message its behaviour sees.
+type vhTrace struct {
+	mu   sync.Mutex
+	seen []vivid.Message
+}
+
+func (a *vhTrace) OnReceive(ctx vivid.ActorContext) {
+	a.mu.Lock()
+	a.seen = append(a.seen, ctx.Message())
+	a.mu.Unlock()
+}
+
+// VH_C05_spawn_while_stopping: an actor spawns a child from its OnKill handler,
+// i.e. while it is already stopping. The child is stopped with its parent, but
+// it is still an incarnation like any other: OnLaunch first, then OnKill, its
+// own OnKilled last.
+func VH_C05_spawn_while_stopping() {
+	sys := vhLiveSystem()
+	tr := &vhTrace{}
+	pref, err := sys.ActorOf(&vhSpawnOnKill{child: tr}, vivid.WithActorName("p"))
+	vrtAssert(err == nil, "setup-spawn")
+	vrtYield()
+	sys.Kill(pref, vrtBool(), "x")
+	vrtYield()
+	vrtRaceOff()
+	vrtAssert(len(tr.seen) >= 1, "child-spawned-while-stopping-is-launched")
+	if len(tr.seen) >= 1 {
+		_, isLaunch := tr.seen[0].(*vivid.OnLaunch)
+		vrtAssert(isLaunch, "onlaunch-before-any-other-message")
+		last, isKilled := tr.seen[len(tr.seen)-1].(*vivid.OnKilled)
+		vrtAssert(isKilled && last.Ref.GetPath() == "/p/late", "own-onkilled-last")
+	}
+	vrtReach("spawned-while-stopping")
+}
